@@ -45,7 +45,7 @@ ASSUMPTIONS = [
     "an addon that took a flow releases it later by calling resume() on it, whatever happened in between",
     "an exception escaping pump_proxy_event is tolerated (the run loop logs and continues) as long as the flow is handed back",
 ]
-MUST_REACH = {"scenarios": 40, "failpoint_runs": 500, "clean_runs": 40, "taken_flows_released": 30, "state_transfers_compared": 500,
+MUST_REACH = {"preempts_after_handback": 4, "scenarios": 40, "failpoint_runs": 500, "clean_runs": 40, "taken_flows_released": 30, "state_transfers_compared": 500,
               "exceptions_escaped_pump": 50, "mitm_side_runs": 6, "e2e_runs": 100, "e2e_states_compared": 150, "session_only_capdata": 5, "locally_served_assets": 3, "line_failpoint_runs": 300, "mitm_history_runs": 6, "owners_gone_before_release": 10,
               "deferred_releases": 100, "deferred_events_covered": 7, "deferred_webapp_flows": 5, "waiter_served_flows": 5,
               "waiter_abandoned_scenarios": 15}
@@ -639,6 +639,80 @@ def end_to_end(ctx, kind, behaviour, on, ua):
         rig.close()
 
 
+def preempt_after_handback(ctx, kind, ua, others):
+    """An addon that kept the flow object around answers the request itself while it is on its way to the server: it sets a
+    response and calls preempt() after the request event had been handed back. The injected response and the routing metadata
+    must reach the mitmproxy side's flow (which is intercepted, given the state and resumed once more)."""
+    from hippolyzer.lib.proxy.http_proxy import IPCInterceptionAddon
+
+    class Remember:
+        def __init__(self):
+            self.seen = []
+
+        def handle_http_request(self, session_manager, flow):
+            self.seen.append(flow)
+
+    addon = Remember()
+    rig = HTTPRig(addons=[addon])
+    FAIL.update(armed_at=None, count=0, in_handler=0, points=[], fired=None)
+    wit = {"preempt_after_handback": True, "kind": kind, "ua": ua, "others": others}
+    try:
+        session, flow = build(rig, kind, "request")
+        del flow.metadata["cap_data_ser"]
+        if ua == "injected":
+            flow.request.headers["X-Hippo-Injected"] = "1"
+        ipc = IPCInterceptionAddon(rig.flow_context)
+        resumes, intercepts = [], []
+        flow.resume = lambda: resumes.append(1)
+        orig_intercept = flow.intercept
+        flow.intercept = lambda: (intercepts.append(1), orig_intercept())[1]
+        ipc.request(flow)
+        rig.pump()
+        pump_mitm(ipc)
+        if len(resumes) != 1:
+            ctx.violation("e2e-resume-count", "the original mitmproxy flow was not resumed exactly once for the event",
+                          dict(wit, phase="request", resumes=len(resumes), expected=1))
+            return
+        if not addon.seen:
+            ctx.inconclusive_because(f"the request of kind {kind} never reached the addon hook")
+            return
+        # other traffic goes through both sides in the meantime
+        for k in range(others):
+            _, of = build(rig, "asset", "request")
+            del of.metadata["cap_data_ser"]
+            of.resume = lambda: None
+            ipc.request(of)
+            rig.pump()
+            pump_mitm(ipc)
+        held = addon.seen[0]
+        body = b"answered by the addon %d" % others
+        try:
+            held.response = mitmproxy.http.Response.make(203, body, {"X-From": "addon"})
+            held.preempt()
+        except Exception as e:
+            ctx.violation("preempt-raised", "preempt() on a handed-back flow raised", dict(wit, exc=repr(e)[:200]))
+            return
+        pump_mitm(ipc)
+        ctx.ev()
+        ctx.count("preempts_after_handback")
+        resp = flow.response
+        if resp is None or bytes(resp.content or b"") != body or resp.status_code != 203 or resp.headers.get("X-From") != "addon":
+            ctx.violation("preempt-response-lost", "the response an addon injected with preempt() after the request had been handed "
+                          "back did not reach the mitmproxy side's flow", dict(wit, response=repr(resp)[:200], resumes=len(resumes)))
+            return
+        if flow.metadata.get("response_injected") is not True:
+            ctx.violation("preempt-metadata-lost", "the response_injected flag of a preempting response did not reach the mitmproxy side",
+                          dict(wit, meta=repr({k: v for k, v in flow.metadata.items() if k != "cap_data"})[:300]))
+            return
+        if len(resumes) != 2 or len(intercepts) != 2:
+            ctx.violation("preempt-resume-count", "a preempted flow was not intercepted and resumed exactly once more",
+                          dict(wit, resumes=len(resumes), intercepts=len(intercepts)))
+            return
+        ctx.nontrivial(("preempt-after-handback", kind, ua, others))
+    finally:
+        rig.close()
+
+
 def _server_response(kind):
     rig = HTTPRig(addons=[])
     try:
@@ -650,6 +724,8 @@ def _server_response(kind):
 def mitm_side(ctx):
     mitm_variants(ctx)
     mitm_histories(ctx)
+    for kind in ("asset", "seed", "proxy_only", "unknown", "upload", "temporary"):
+        preempt_after_handback(ctx, kind, "viewer", ctx.rng.choice([0, 0, 1, 3]))
     combos = [(k, b, on, ua) for k in URL_KINDS for b in BEHAVIOURS for on in ("request", "response")
               for ua in ("viewer", "injected", "browser")]
     ctx.rng.shuffle(combos)
